@@ -87,8 +87,9 @@ func traceACL(o opts) error {
 	}
 	// rule-set shapes
 	acts := []string{"get", "info", "put", "activate", "delete", "bogus", ""}
-	patPool := []string{"*", "a", "b", "dev/*", "*/x", "a*b*", "", "_internal/*", "a\nb", "dev/x"}
-	namePool := []string{"a", "b", "dev/x", "dev/", "ab", "a\nb", "", "_internal/k", "x", "aXbY"}
+	patPool := []string{"*", "a", "b", "dev/*", "*/x", "a*b*", "", "_internal/*", "a\nb", "dev/x", "prod/*", "prod/key", "a/..", "dev/../x"}
+	// names are opaque strings: path-like ones ("..", "//", "/./", trailing "/") mean nothing special
+	namePool := []string{"a", "b", "dev/x", "dev/", "ab", "a\nb", "", "_internal/k", "x", "aXbY", "dev/../prod/key", "a/..", "/..", "a..b//c", "dev//x", "dev/./x", "./a", "prod/key", "dev/../x", ".."}
 	for i := 0; i < o.n; i++ {
 		rs := genRules(r, acts, patPool)
 		a := pick(r, acts)
